@@ -32,9 +32,18 @@ Print Assumptions C15_initial_path_ok.
 
 (* ==== appended by tools/mkprops.py (APPEND table) ==== *)
 
-Require Import LV.Base LV.VV LV.VVFacts LV.Path LV.PathSpec LV.PathTerm LV.PathDistinct LV.PathApi LV.Prog LV.Objects LV.Exec LV.Atomic LV.Ops LV.Check LV.PathPreempt.
+Require Import LV.Base LV.VV LV.VVFacts LV.Path LV.PathSpec LV.PathTerm LV.PathDistinct LV.PathApi LV.Prog LV.Objects LV.Exec LV.Atomic LV.Ops LV.Check LV.PathPreempt LV.Witness.
 
 (* Preemptions counted independently of the stored counter (PathPreempt.v) *)
+(* D24 (listed finding, computed): for that program the run with preemption_bound = 2 explores an outcome that the unbounded run does not: clause `every result found is also found by the unbounded run` fails (the bounded run is right: the outcome is legal; the unbounded run is incomplete) *)
+Theorem C15_refuted_D24_bounded_not_subset :
+  fin_of p_D24_b2 = RunOk /\
+       fin_of p_D24 = RunOk /\
+       Outcome.mem_outcome o_D24 (Outcome.explored p_D24_b2 (recs_of p_D24_b2)) = true /\
+       Outcome.mem_outcome o_D24 (Outcome.explored p_D24 (recs_of p_D24)) = false.
+Proof. exact D24_bounded_not_subset. Qed.
+Print Assumptions C15_refuted_D24_bounded_not_subset.
+
 (* INDEPENDENT READING: the number of context switches away from a still-runnable thread, counted from the recorded schedule entries alone, never exceeds the stored preemption counter *)
 Theorem C15_switches_le_preemptions :
   forall b : list entry,
